@@ -9,7 +9,25 @@ Line formats (harness c15_queues.c = H, model driver c15ext_driver = D):
          | addresses on the chain from head (arena ordinals) | values behind the dummy | T tail | P next-unused : free list (LIFO)
          | W  hz0 hz1 : retired list ;   (one group per worker, worker 0 = the controller's shepherd)
        so the retire / scan / free events and the pool's re-use of addresses are part of the compared trace.
-  DM ...  see run_dm below.
+  DM (extension H (DM): M3 replay of the real src/ds/qdqueue.c against CQueues/DqMicro.v)
+     H: DM cap ns | <shep>: ops | <shep>: ops ... | schedule        ops: e<v> qdqueue_enqueue, t<there>,<v> qdqueue_enqueue_there, d dequeue
+        task k is pinned on shepherd <shep> (1..ns-1, pairwise distinct; the controller sits on shepherd 0); schedule: a digit grants
+        that task once (it runs to its next interposed operation of qdqueue.c or to the end of its call); a digit followed by one of
+        . M Q D I C P L U grants it repeatedly (<= 64) until it returned from its call (.) or stands before
+        qlfqueue_empty / _enqueue / _dequeue / qthread_incr / qthread_cas / qthread_cas_ptr / qthread_lock / qthread_unlock;
+        then round-robin up to cap extra grants.
+     H prints   C ns | allsheps[0] ; allsheps[1] ; ... | neighbors[0] ; neighbors[1] ; ...     (indices into Qs; also the answer to "DC")
+                g <t> <KIND> <target sub-queue> | <dump>     KIND in LFEMPTY LFENQ LFDEQ INCR CASV CASP LOCK UNLOCK
+                g <t> END i<rc> | <dump>      g <t> END p<value or 0> | <dump>
+                g <t> BLOCKED | <dump>        t stands before qthread_lock of a gateway_lock held by another parked task (not released)
+                g <t> - | <dump>              t has finished its program
+                F | <stuck task ids>
+        dump = per shepherd, separated by " | ":   q <values> ; lc <idx|-> ; ai <last_ad_issued> ac <last_ad_consumed>
+                ; h <heap element indices from first along next> ; e <inheap>:<generation>:<prev|->:<next|-> (one per heap element)
+     D: DM cap ns | alls0 ; alls1 ; ... | nbrs0 ; nbrs1 ; ... | <shep>: ops | ... | schedule(digits only)
+        prints the same g lines, then "P <pc transitions taken>" (statistics only, not compared) and "F | <stuck>".
+        The Python side feeds D the configuration the harness printed for that case and, as schedule, the sequence of task ids of
+        the harness' g lines (cap 0): the run-until suffixes and the round-robin are resolved by the harness.
 """
 import json
 import os
@@ -241,6 +259,420 @@ def run_lr(ctx, exe, drv, quick, acc):
                 acc["samples"].append(dict(script=h_line(c)[:240], grants=len(ig), last=il[-2:]))
 
 
+# ---------------------------------------------------------------------------------------------- extension H (DM)
+DM_MACROS = ".MQDICPLU"
+
+
+def dm_parse_cfg(line):
+    """'C ns | a0 ; a1 ; ... | n0 ; n1 ; ...' -> (ns, alls, nbrs)"""
+    p = line.split("|")
+    ns = int(p[0].split()[1])
+    alls = [[int(x) for x in l.split()] for l in p[1].split(";")]
+    nbrs = [[int(x) for x in l.split()] for l in p[2].split(";")]
+    return ns, alls, nbrs
+
+
+def dm_cfg_text(alls, nbrs):
+    return "| %s | %s" % (" ; ".join(" ".join(map(str, l)) for l in alls), " ; ".join(" ".join(map(str, l)) for l in nbrs))
+
+
+def gen_dm(rng, K, ns, thorough, nbrs=None):
+    """K tasks on pairwise distinct shepherds 1..ns-1 (the controller occupies shepherd 0).  nbrs = neighbour lists of a qdqueue
+    on this shepherd count (only the SETS are used: the order changes from create to create); default: everybody.
+    An advertisement for sub-queue x is pushed into the heaps of nbrs[x] by the second enqueue on a non-empty x; the templates
+    put the dequeuer on such a neighbour.  Schedules use the run-until suffixes of the harness (see the module docstring)."""
+    if nbrs is None:
+        nbrs = [[j for j in range(ns) if j != i] for i in range(ns)]
+    sheps = sorted(rng.shuffle(list(range(1, ns)))[:K])
+    if rng.chance(1, 2):
+        sheps = rng.shuffle(sheps)
+    progs = [[] for _ in range(K)]
+    sched = []
+    cnt = [0]
+
+    def val():
+        cnt[0] += 1
+        return cnt[0]
+
+    def op(t, o):                      # o: "e" | ("t", x) | "d"
+        if o == "d":
+            progs[t].append("d")
+        elif o == "e":
+            progs[t].append("e%d" % val())
+        else:
+            progs[t].append("t%d,%d" % (o[1], val()))
+
+    def enq_to(t, x):                  # an enqueue by task t that lands in sub-queue x
+        op(t, "e" if sheps[t] == x and rng.chance(1, 2) else ("t", x))
+
+    def fin(t):
+        sched.append("%d." % t)
+
+    def upto(t, k):
+        sched.append("%d%s" % (t, k))
+
+    def noise(n):
+        for _ in range(n):
+            sched.append(str(rng.below(K)) * rng.choice([1, 1, 1, 2, 3]))
+
+    # pairs (x, t): task t sits on a neighbour of x other than x itself, so that it receives x's advertisements
+    recv = [(x, t) for x in range(ns) for t in range(K) if sheps[t] in nbrs[x] and sheps[t] != x]
+    on = {sheps[t]: t for t in range(K)}
+    shape = rng.weighted([("random", 3), ("steal", 2), ("cas", 3), ("lcother", 2), ("sweeplc", 2), ("checkads", 2), ("nullmid", 1),
+                          ("blocked", 2)])
+    if not recv and shape in ("steal", "cas", "lcother", "checkads", "blocked"):
+        shape = "random"
+    if shape == "steal":
+        # X (on x) works on its own queue, enqueues twice more (advertises once); D on a neighbour with an empty own queue pops
+        # the ad: lc == ad.shep, generation 1 is not newer than last_ad_consumed -> no CAS, steal
+        c = [(x, t) for x, t in recv if x in on]
+        if not c:
+            shape = "cas"
+        else:
+            x, d = rng.choice(c)
+            X = on[x]
+            op(X, "e"); fin(X); op(X, "d"); fin(X)
+            for _ in range(rng.range(2, 4)):
+                op(X, "e"); fin(X)
+            for _ in range(rng.range(1, 3)):
+                op(d, "d")
+                if rng.chance(1, 2):
+                    fin(d)
+                else:
+                    noise(rng.range(2, 8))
+    if shape in ("cas", "blocked"):
+        # two (three) enqueues into the SAME non-empty sub-queue x stand before qthread_incr together: generations 1, 2(, 3);
+        # a dequeuer on a neighbour pops the ad while x works on its own queue: CAS loop on last_ad_consumed
+        x, d = rng.choice(recv)
+        ts = rng.shuffle(list(range(K)))
+        first = on.get(x, ts[0])
+        enq_to(first, x); fin(first)
+        if x in on:                                  # lc[x] = x: the task on x takes from its own queue
+            if rng.chance(1, 4):
+                enq_to(first, x); fin(first)
+            op(on[x], "d"); fin(on[x])
+            if rng.chance(3, 4):
+                enq_to(first, x); fin(first)
+        over = ts[:rng.range(2, K)]
+        for t in over:
+            enq_to(t, x); upto(t, "I")
+        if shape == "blocked" and len(over) >= 2:
+            a, b = over[0], over[1]
+            upto(a, "U"); upto(b, "L"); sched.append(str(b)); sched.append(str(b)); fin(a); sched.append(str(b))
+        for t in rng.shuffle(over):
+            if rng.chance(2, 3):
+                fin(t)
+            else:
+                sched.append(str(t) * rng.range(1, 5))
+        for t in rng.shuffle(list(range(K))):
+            if t == d or rng.chance(1, 3):
+                op(t, "d")
+                upto(t, rng.choice(["C", "C", ".", "U", "D"]))
+        if rng.chance(1, 2):                          # a second round: consumed moved, so stale-ness may hold again
+            for t in over:
+                enq_to(t, x); upto(t, rng.choice(["I", "I", "."]))
+            for t in rng.shuffle(list(range(K))):
+                op(t, "d")
+                upto(t, rng.choice(["C", "."]))
+        noise(rng.range(0, 10))
+    elif shape == "lcother":
+        # the task on x took its last element from z != x; then x is advertised: the popper sees lc != NULL && lc != ad.shep ->
+        # re-push of z with generation 0 and cas_ptr on x's last_consumed
+        c = [(x, t) for x, t in recv if x in on]
+        if not c:
+            shape = "random"
+        else:
+            x, d = rng.choice(c)
+            X = on[x]
+            z = rng.choice([i for i in range(ns) if i != x])
+            op(X, ("t", z)); fin(X); op(X, "d"); fin(X)          # lc[x] = z
+            if rng.chance(1, 2):
+                op(X, ("t", z)); fin(X)
+            op(X, "e"); fin(X); op(X, "e")
+            if rng.chance(1, 2):
+                fin(X)
+            else:
+                upto(X, rng.choice(["I", "L", "U"]))
+            for _ in range(rng.range(1, 3)):
+                op(d, "d")
+                upto(d, rng.choice([".", "P", "P", "L", "U"]))
+                if rng.chance(1, 3):
+                    op(X, rng.choice(["d", "e"])); upto(X, rng.choice([".", "D", "Q"]))
+            noise(rng.range(0, 8))
+    elif shape == "sweeplc":
+        # r's task took its last element from l (lc[r] = l, r's own queue empty); a dequeuer whose sweep meets r first
+        # dequeues from l through r's hint
+        if K < 2:
+            shape = "random"
+        else:
+            ts = rng.shuffle(list(range(K)))
+            R, D = ts[0], ts[1]
+            l = rng.choice([i for i in range(ns) if i != sheps[R] and i != sheps[D]] or [0])
+            op(R, ("t", l)); fin(R); op(R, "d"); fin(R)
+            for _ in range(rng.range(1, 2)):
+                op(R, ("t", l)); fin(R)
+            op(D, "d")
+            if rng.chance(1, 2):
+                fin(D)
+            else:
+                sched.append(str(D) * rng.range(1, 4)); op(R, "d"); fin(R); fin(D)
+            noise(rng.range(0, 6))
+    elif shape == "checkads":
+        # the dequeuer stands in the middle of its allsheps sweep while an advertisement arrives in its heap: goto checkads
+        x, d = rng.choice(recv)
+        E = rng.choice([t for t in range(K) if t != d])
+        if x in on and rng.chance(1, 2):
+            X = on[x]
+            op(X, "e"); fin(X); op(X, "d"); fin(X)
+        op(d, "d")
+        for _ in range(rng.range(2, ns)):
+            upto(d, "D")
+        enq_to(E, x); fin(E); enq_to(E, x)
+        upto(E, rng.choice([".", ".", "U", "I"]))
+        upto(d, rng.choice([".", "L", "U"]))
+        fin(E)
+        noise(rng.range(0, 8))
+    elif shape == "nullmid":
+        ts = rng.shuffle(list(range(K)))
+        E, D = ts[0], ts[1]
+        op(E, rng.choice(["e", ("t", rng.below(ns))]))
+        upto(E, rng.choice(["Q", "Q", "M"]))
+        op(D, "d"); fin(D)
+        fin(E)
+        op(D, "d"); fin(D)
+    if shape == "random":
+        hot = [rng.below(ns) for _ in range(rng.range(1, 2))]
+        for t in range(K):
+            we = rng.choice([30, 50, 70])
+            for _ in range(rng.range(3, 12 if thorough else 8)):
+                o = rng.weighted([("e", we // 2), ("t", we - we // 2), ("d", 100 - we)])
+                op(t, ("t", rng.choice(hot) if rng.chance(3, 4) else rng.below(ns)) if o == "t" else o)
+        total = 8 * sum(len(p) for p in progs)
+        while len(sched) < total:
+            k = rng.below(10)
+            t = rng.below(K)
+            if k < 5:
+                sched.append(str(t) * rng.choice([1, 1, 1, 2, 2, 3, 5]))
+            elif k < 8:
+                upto(t, rng.choice(DM_MACROS))
+            else:
+                sched.append(str(t) * rng.range(6, 14))
+    # every task gets a few more operations after the aimed part (hints are now in an interesting state)
+    if shape != "random" and rng.chance(2, 3):
+        for t in range(K):
+            for _ in range(rng.range(0, 3)):
+                op(t, rng.weighted([("e", 30), (("t", rng.below(ns)), 20), ("d", 50)]))
+        noise(rng.range(4, 20))
+    for t in range(K):
+        if not progs[t]:
+            op(t, "d")
+    nops = sum(len(p) for p in progs)
+    return dict(mode="DM", shape=shape, cap=(12 + 4 * ns) * nops + 100, ns=ns, tasks=[[sheps[t], progs[t]] for t in range(K)],
+                sched="".join(sched))
+
+
+def dm_parse_grant(l):
+    """'g t KIND [x] | dump' -> (t, kind, arg, [per shepherd dict(q=[..], lc, ai, ac, h=[..], e=[..])])"""
+    p = [x.strip() for x in l.split("|")]
+    g = p[0].split()
+    subs = []
+    for d in p[1:]:
+        f = [x.strip() for x in d.split(";")]
+        if len(f) < 5:
+            continue
+        subs.append(dict(q=f[0].split()[1:], lc=f[1].split()[1], ai=int(f[2].split()[1]), ac=int(f[2].split()[3]),
+                         h=f[3].split()[1:], e=f[4].split()[1:]))
+    return int(g[1]), g[2], (g[3] if len(g) > 3 else None), subs
+
+
+def dm_oracle(c, lines):
+    """conservation on the IMPLEMENTATION's trace: a dequeue delivers only values whose enqueue has started, each value at most
+    once; a NULL result only if every sub-queue was seen empty in some dump during that call; at the end (nobody stuck)
+    delivered + remaining contents = enqueued.  Returns a reason or None."""
+    K = len(c["tasks"])
+    ns = c["ns"]
+    ip = [0] * K                        # next operation of task t
+    incall = [False] * K
+    seen_empty = [set() for _ in range(K)]
+    started, delivered = [], []
+    last = [dict(q=[]) for _ in range(ns)]
+    complete = False
+    for l in lines:
+        if l.startswith("F"):
+            complete = (l.split("|")[1].split() == []) if "|" in l else False
+        if not l.startswith("g "):
+            continue
+        t, kind, arg, subs = dm_parse_grant(l)
+        if len(subs) != ns or t >= K:
+            return "malformed grant line %r" % l[:80]
+        if kind in ("-", "BLOCKED"):
+            pass
+        else:
+            prog = c["tasks"][t][1]
+            if not incall[t]:
+                if ip[t] >= len(prog):
+                    return "task %d moved after the end of its program" % t
+                incall[t] = True
+                o = prog[ip[t]]
+                if o[0] in "et":
+                    started.append(int(o.split(",")[-1][1:] if o[0] == "e" else o.split(",")[1]))
+                seen_empty[t] = set(i for i in range(ns) if not last[i]["q"])
+        for u in range(K):
+            if incall[u]:
+                seen_empty[u] |= set(i for i in range(ns) if not subs[i]["q"])
+        if kind == "END":
+            o = c["tasks"][t][1][ip[t]]
+            if o == "d":
+                if arg is None or not arg.startswith("p"):
+                    return "dequeue by task %d returned %r" % (t, arg)
+                v = int(arg[1:])
+                if v == 0:
+                    if len(seen_empty[t]) != ns:
+                        return "dequeue by task %d returned NULL although sub-queue(s) %s were never empty during the call" % (
+                            t, sorted(set(range(ns)) - seen_empty[t]))
+                else:
+                    if v not in started:
+                        return "dequeue by task %d delivered %d, which no started enqueue put in" % (t, v)
+                    if v in delivered:
+                        return "value %d delivered twice" % v
+                    delivered.append(v)
+            elif arg != "i0":
+                return "enqueue by task %d returned %r" % (t, arg)
+            incall[t] = False
+            ip[t] += 1
+        last = subs
+    for sq in last:
+        if len(set(sq["q"])) != len(sq["q"]):
+            return "a value is linked twice in a sub-queue: %s" % sq["q"]
+    if complete:
+        rest = [int(v) for sq in last for v in sq["q"]]
+        if sorted(rest + delivered) != sorted(started):
+            return "conservation: enqueued %s, delivered %s + remaining %s" % (sorted(started), sorted(delivered), sorted(rest))
+    return None
+
+
+DM_FEATURES = {                       # feature -> pc transition of the model (P line of the driver; "A>" = any transition out of A)
+    "ad_issued": "EnqIncr>", "ad_not_stale_skip": "EnqLdConsumed>EnqRet", "ad_popped": "PopCrit>PopUnlock",
+    "pop_raced_empty": "PopCrit>PopUnlockEmpty", "cas_loop": "DeqCas>", "cas_retry": "DeqCas>DeqCas", "steal_via_ad": "DeqSteal>DeqStRet",
+    "steal_via_ad_empty": "DeqSteal>PopPre", "ad_lc_null": "DeqLdLc>PopPre", "ad_lc_other_repush_casp": "DeqCasP>",
+    "sweep_lc_branch": "DeqLcDeq>", "sweep_lc_hit": "DeqLcDeq>DeqStRet", "goto_checkads": "DeqEmptyChk>PopPre", "null_result": "DeqRetNull>",
+    "push_first": "push:first", "push_before_first": "push:before", "push_after_first": "push:after", "push_already_inheap": "push:already",
+    "push_gen_not_newer": "push:noop", "push_was_first": "push:wasfirst",
+}
+
+
+def dm_features(ml, il):
+    f = set()
+    for l in ml or []:
+        if l.startswith("P "):
+            toks = l.split()[1:]
+            for name, pat in DM_FEATURES.items():
+                if pat.endswith(">"):
+                    hit = any(t.startswith(pat) for t in toks)
+                elif pat.startswith("push:"):
+                    hit = pat in toks or pat + "0" in toks
+                else:
+                    hit = pat in toks
+                if hit:
+                    f.add(name)
+            if any(t.startswith("push:") and t.endswith("0") for t in toks):
+                f.add("push_gen0")
+    if any(l.startswith("g ") and l.split()[2] == "BLOCKED" for l in il or []):
+        f.add("blocked_grant")
+    return f
+
+
+def dm_run_impl(exe, cases, ns, timeout=600):
+    """runs the cases through the harness; a case that ends with parked tasks (or a watchdog) ends the process: restart behind it"""
+    res = [None] * len(cases)
+    pos, launches, rc = 0, 0, None
+    while pos < len(cases) and launches < 40:
+        launches += 1
+        _, lines, rc = run_harness(exe, cases[pos:], ns, timeout=timeout)
+        chunks = split_cases(cases[pos:], lines)
+        done = 0
+        for i, ch in enumerate(chunks):
+            if ch is None:
+                break
+            res[pos + i] = ch
+            done += 1
+        pos += max(done, 1)
+    return res, rc, launches
+
+
+def run_dm(ctx, exe, drv, quick, acc):
+    """M3 replay of the REAL src/ds/qdqueue.c against CQueues/DqMicro.v.  See the module docstring for the line formats."""
+    rng = ctx.rng
+    t_start = time.time()
+    corpus = load_corpus("ext_dm.json")
+    plan = [(2, 3, 10), (2, 4, 8), (3, 4, 12), (3, 5, 8)] if quick else [(2, 3, 500), (2, 4, 400), (3, 4, 700), (3, 5, 500)]
+    by_ns = {}
+    for K, ns, n in plan:
+        by_ns.setdefault(ns, []).append((K, n))
+    for ns in sorted(by_ns):
+        r = rng.fork()
+        rc0, out0, err0 = core.run_lines(exe, ["DC", "Q"], timeout=120, env=core.qenv(ns, 1, stack=65536))
+        cfg = [norm(l) for l in out0 if l.startswith("C ")]
+        if not cfg:
+            raise core.BuildError("c15 harness gave no qdqueue configuration on %dx1: rc=%s %s %s" % (ns, rc0, out0[:2], err0[-300:]))
+        _, alls0, nbrs0 = dm_parse_cfg(cfg[0])
+        cases = [c for c in corpus if c["ns"] == ns]
+        for K, n in by_ns[ns]:
+            cases += [gen_dm(r, K, ns, not quick, nbrs0) for _ in range(n)]
+        impl, rc, launches = dm_run_impl(exe, cases, ns, timeout=900)
+        mlines = []
+        for c, il in zip(cases, impl):
+            cl = [l for l in (il or []) if l.startswith("C ")]
+            _, alls, nbrs = dm_parse_cfg(cl[0]) if cl else (ns, alls0, nbrs0)
+            ig = grants(il)
+            # the model replays the grant sequence the harness resolved the schedule (run-until suffixes, round-robin) to
+            seq = "".join(l.split()[1] for l in ig) if ig else "".join(ch for ch in c["sched"] if ch.isdigit())
+            mlines.append(d_line(dict(c, sched=seq, cap=0 if ig else c["cap"]), 0, dm_cfg_text(alls, nbrs)))
+        rcm, mout, merr = core.run_lines(drv, mlines, timeout=900)
+        hmod = split_cases(cases, [norm(l) for l in mout])
+        for c, il, ml in zip(cases, impl, hmod):
+            tag = dict(c, config="%dx1" % ns)
+            acc["evals"] += 1
+            acc["hist"]["DM"] = acc["hist"].get("DM", 0) + 1
+            acc["stats"]["dm_shape_" + c.get("shape", "corpus")] = acc["stats"].get("dm_shape_" + c.get("shape", "corpus"), 0) + 1
+            if il is None or ml is None:
+                acc["mismatches"].append(("DM: no output (harness rc=%s, model rc=%s %s)" % (rc, rcm, merr[-200:]), tag))
+                acc["rejects"].append((None, "hang or crash of the real code (qdqueue under the baton)", tag))
+                continue
+            ig, mg = grants(il), grants(ml)
+            d = core.first_diff(ig, mg)
+            inc = il[-1] == "INCOMPLETE"
+            istuck = None if inc else (il[-1].split("|")[1].split() if "|" in il[-1] else [il[-1]])
+            mstuck = ml[-1].split("|")[1].split() if ml[-1].startswith("F |") else [ml[-1]]
+            agree = d is None and not inc and istuck == mstuck and bool(ig)
+            try:
+                why = dm_oracle(c, il)
+            except (ValueError, IndexError) as e:
+                why = "unparsable implementation trace (%s)" % e
+            if inc and not why:
+                why = "hang of the real code (watchdog) at grant %d" % len(ig)
+            if not agree:
+                k = d or 0
+                acc["mismatches"].append(("DM micro-step replay of qdqueue.c: first difference at grant %s: impl %r model %r; stuck impl %s model %s" % (
+                    d, ig[d] if d is not None and d < len(ig) else None, mg[d] if d is not None and d < len(mg) else None, istuck, mstuck),
+                    dict(tag, impl=ig[max(0, k - 3):k + 2], model=mg[max(0, k - 3):k + 2])))
+            if why:
+                acc["rejects"].append((None, "qdqueue: " + why, dict(tag, impl_tail=il[-4:])))
+            feats = dm_features(ml, il)
+            for f in feats:
+                acc["stats"]["dm_" + f] = acc["stats"].get("dm_" + f, 0) + 1
+            acc["stats"]["dm_grants"] = acc["stats"].get("dm_grants", 0) + len(ig)
+            if istuck:
+                acc["stats"]["dm_stuck_cases"] = acc["stats"].get("dm_stuck_cases", 0) + 1
+            if agree and feats & {"ad_popped", "goto_checkads", "sweep_lc_branch", "cas_loop", "ad_lc_other_repush_casp", "blocked_grant"}:
+                acc["nontriv"].add(("DM", h_line(c)))
+            if agree and sum(1 for s in acc["samples"] if s.get("mode") == "DM") < 2 and "steal_via_ad" in feats:
+                acc["samples"].append(dict(mode="DM", script=h_line(c)[:240], grants=len(ig), features=sorted(feats), last=il[-2:]))
+        acc["stats"]["dm_harness_launches"] = acc["stats"].get("dm_harness_launches", 0) + launches
+    acc["stats"]["dm_wall_s"] = round(time.time() - t_start, 1)
+# ---------------------------------------------------------------------------------------------- end extension H (DM)
+
+
 def run_ext(ctx, quick):
     t0 = time.time()
     pr = ctx.coq_properties("Properties/Properties_C15_ext.v")
@@ -253,12 +685,14 @@ def run_ext(ctx, quick):
     t1 = time.time()
     run_lr(ctx, exe, drv, quick, acc)
     t2 = time.time()
+    run_dm(ctx, exe, drv, quick, acc)          # extension H (DM)
+    t3 = time.time()
     ctx.cov["ext_H"] = dict(
         evaluations=acc["evals"], distinct_nontrivial=len(acc["nontriv"]), input_distribution=acc["hist"], stats=acc["stats"],
         samples=acc["samples"], correspondence_mismatches=len(acc["mismatches"]),
         rule="LR: non-trivial = a scan freed nodes while another task stood inside an operation AND a freed address was handed out "
              "again, with every grant's dump (chain addresses, pool, hazard slots, retired lists) equal to the model's",
-        timing_s=dict(coq_build=round(t1 - t0, 1), lr=round(t2 - t1, 1)))
+        timing_s=dict(coq_build=round(t1 - t0, 1), lr=round(t2 - t1, 1), dm=round(t3 - t2, 1)))
     ctx.cov["evaluations"] = ctx.cov.get("evaluations", 0) + acc["evals"]
     ctx.cov["distinct_nontrivial"] = ctx.cov.get("distinct_nontrivial", 0) + len(acc["nontriv"])
     ctx.cov["traces_validated_against_impl"] = ctx.cov.get("traces_validated_against_impl", 0) + acc["evals"]
